@@ -61,6 +61,54 @@ class SymArray:
     def __len__(self):
         return len(self.data)
 
+    # ---- the little array arithmetic the derivative assemblies use
+    @property
+    def shape(self):
+        out, d = [], self.data
+        while isinstance(d, list):
+            out.append(len(d))
+            d = d[0] if d else None
+        return tuple(out)
+
+    @property
+    def ndim(self):
+        return len(self.shape)
+
+    @property
+    def T(self):
+        d = self.tolist()
+        if d and isinstance(d[0], list):
+            return SymArray([[d[i][j] for i in range(len(d))] for j in range(len(d[0]))])
+        return SymArray(d)
+
+    def transpose(self):
+        return self.T
+
+    def _ew(self, o, f):
+        a = self.tolist()
+        b = o.tolist() if isinstance(o, SymArray) else o
+
+        def rec(x, y):
+            if isinstance(x, list):
+                if isinstance(y, list):
+                    if len(x) != len(y):
+                        raise Raised('ValueError', 'operands could not be broadcast together')
+                    return [rec(p_, q_) for p_, q_ in zip(x, y)]
+                return [rec(p_, y) for p_ in x]
+            if isinstance(y, list):
+                return [rec(x, q_) for q_ in y]
+            return f(x, y)
+        return SymArray(rec(a, b))
+
+    def __add__(self, o): return self._ew(o, lambda x, y: x + y)
+    def __radd__(self, o): return self._ew(o, lambda x, y: y + x)
+    def __sub__(self, o): return self._ew(o, lambda x, y: x - y)
+    def __rsub__(self, o): return self._ew(o, lambda x, y: y - x)
+    def __mul__(self, o): return self._ew(o, lambda x, y: x * y)
+    def __rmul__(self, o): return self._ew(o, lambda x, y: y * x)
+    def __truediv__(self, o): return self._ew(o, lambda x, y: x / y)
+    def __neg__(self): return self._ew(0, lambda x, y: -x)
+
 
 class Poly1d:
     """scipy.special.legendre(n) / poly1d: an uninterpreted function P; deriv(k) its k-th derivative; scalar * poly is a poly"""
@@ -332,12 +380,155 @@ def check(repo, tier):
                     nfam_checked += 1
                 except SkipSymbolic as sk:
                     run.note('symbolic-integer parameterisation skipped (the concrete values 0..5 of the same family are decided): ' + str(sk))
+    base_class_assembly(run, repo, modname, mod)
+    purity(run, repo, modname, mod, families)
     for e in sorted(set(EXEMPT)):
         run.note('exempt: ' + e)
     run.analysed = {'families': families, 'parameterisations_checked': nfam_checked, 'dimension': DIM}
     run.floor('family parameterisations interpreted', nfam_checked, 15)
     controls(run, repo)
     return run
+
+
+def purity(run, repo, modname, mod, families):
+    """D4: evaluation is a pure function of the point.  (a) Layer-1 effect summaries: no method of a basis-function class modifies the array it is given
+    (an in-place operation on t[self.index] would change the caller's data and every later evaluation on it).  (b) gradient / hessian return a value of
+    their own: evaluating again at another point leaves an earlier result unchanged (no array kept on the instance and handed out repeatedly)."""
+    from . import own
+    run.rule('D4', 'evaluation is a pure function of the point: no method of a basis-function class modifies its argument (whole-repository effect analysis), and a gradient / '
+             'Hessian returned earlier is not changed by a later evaluation at another point (two consecutive calls on one object, results compared)')
+    an = own.analyse(repo)
+    for (qual, ct), sm in sorted(an.summ.items(), key=lambda kv: kv[0][0]):
+        fn = repo.fns[qual]
+        if fn.mod != modname or fn.cls is None or fn.cls not in list(families) + ['Function', 'OneCoordinateFunction']:
+            continue
+        effects = {}
+        for path, sites in list(sm.rebinds.items()) + list(sm.bufwrites.items()):
+            root = path.split('.')[0].rstrip('[]')
+            if root in fn.params and root != 'self':
+                effects.setdefault(root, set()).update(sites)
+        run.oblige('D4', (qual, 'arguments'), not effects)
+        for root, sites in effects.items():
+            s0 = sorted(sites)[0]
+            run.add(Finding('C14', 'D4', fn.where, f'{root} <- {s0[0]}', f'the argument `{root}` is modified in place ({s0[1]}:{s0[2]} {s0[3]}): the caller\'s data changes and later evaluations differ',
+                            fn.file, fn.node.lineno))
+    # (a') the evaluation point may be a whole array of points (the property quantifies over that), and then t[self.index] is a VIEW of the caller's data:
+    # an in-place operator on a name bound to (a subscript of) the argument writes into it.  Small syntactic dataflow over each method body.
+    import ast as _ast
+    for qual, fn in sorted(repo.fns.items()):
+        if fn.mod != modname or fn.cls is None or fn.cls not in list(families) + ['Function', 'OneCoordinateFunction']:
+            continue
+        views = {p for p in fn.params if p != 'self'}
+
+        def root(e):
+            while isinstance(e, (_ast.Subscript, _ast.Attribute)):
+                e = e.value
+            return e.id if isinstance(e, _ast.Name) else None
+        hits = []
+        for st in _ast.walk(fn.node):
+            if isinstance(st, _ast.Assign) and len(st.targets) == 1 and isinstance(st.targets[0], _ast.Name) and isinstance(st.value, (_ast.Subscript, _ast.Name)) and root(st.value) in views:
+                views.add(st.targets[0].id)
+        for st in _ast.walk(fn.node):
+            if isinstance(st, _ast.AugAssign) and root(st.target) in views:
+                hits.append(st)
+        run.oblige('D4', (qual, 'in-place on the point'), not hits)
+        for st in hits:
+            run.add(Finding('C14', 'D4', fn.where, norm_text(st, 100), f'`{norm_text(st, 80)}` operates in place on (a view of) the evaluation point: for an array of points this changes the caller\'s data',
+                            fn.file, st.lineno))
+    # (b) two consecutive evaluations on one object
+    from .interp import Frame
+    xs1 = [sp.Symbol(f'x{i}', real=True) for i in range(DIM)]
+    xs2 = [sp.Symbol(f'y{i}', real=True) for i in range(DIM)]
+    for cname in families:
+        it = Interp(repo, libs=make_libs(False), domain=C14Domain(False))
+        cr = it.class_ref(modname, cname)
+        init = cr.find('__init__')
+        params = [p for p in init.params if p != 'self']
+        kwargs = {p: param_values(cname, p, 1)[0] for p in params}
+        if 'exponent' in kwargs:
+            kwargs['exponent'] = 3
+        if 'degree' in kwargs and cname != 'Bspline':
+            kwargs['degree'] = 3
+        it.stack.append(Frame(init, mod, {}))
+        try:
+            inst = it.instantiate(cr, [], dict(kwargs))
+        except (Raised, Fork):
+            continue
+        for meth in ('gradient', 'hessian'):
+            fn = cr.find(meth)
+            if fn is None:
+                continue
+            try:
+                r1 = it.call_fn(fn, [list(xs1)], {}, self_obj=inst)
+                snap = sp.sympify(r1.tolist()) if isinstance(r1, SymArray) else None
+                r2 = it.call_fn(fn, [list(xs2)], {}, self_obj=inst)
+            except (Raised, Fork):
+                continue            # (NotImplementedError members, undecided guards: D1/D2 deal with those)
+            if snap is None:
+                continue
+            after = sp.sympify(r1.tolist())
+            same_obj = r1 is r2 or (isinstance(r2, SymArray) and r2.data is r1.data)
+            ok = (after == snap) and not same_obj
+            run.oblige('D4', (cname, meth, 'fresh result'), ok)
+            if not ok:
+                run.add(Finding('C14', 'D4', f'{modname}::{cname}.{meth}', f'{meth} returns instance state', f'{cname}.{meth}: the array returned for the first point '
+                                f'{"is the same object as" if same_obj else "was changed by"} the evaluation at a second point (it is kept on the instance and handed out again)', fn.file, fn.node.lineno))
+
+
+def base_class_assembly(run, repo, modname, mod):
+    """D2 for the base class: Function.gradient / Function.hessian, which a user-defined (multi-coordinate) function inherits, assemble the partial
+    derivatives of THAT function: gradient(t)[i] = partial(t, i), hessian(t)[i][j] = partial2(t, i, j).  The base class is instantiated and given
+    symbolic partial / partial2 (a symmetric Hessian, as for any twice differentiable function)."""
+    from .interp import Frame
+    if 'Function' not in mod.classes:
+        return
+    for dim in (2, 3):
+        for explicit in (True, False):
+            it = Interp(repo, libs=make_libs(False), domain=C14Domain(False))
+            cr = it.class_ref(modname, 'Function')
+            init = cr.find('__init__')
+            it.stack.append(Frame(init, mod, {}))
+            label = f'Function(dimension={dim if explicit else None}) with user-defined partial derivatives'
+            try:
+                inst = it.instantiate(cr, [], {'dimension': dim} if explicit else {})
+                inst._attrs['partial'] = lambda t, d_: sp.Symbol(f'p{d_}')
+                inst._attrs['partial2'] = lambda t, i_, j_: sp.Symbol(f'h{min(i_, j_)}{max(i_, j_)}')
+                xs = [sp.Symbol(f'x{i}', real=True) for i in range(dim)]
+                res = {}
+                for meth in ('gradient', 'hessian'):
+                    fn = cr.find(meth)
+                    if fn is None:
+                        continue
+                    if not explicit:
+                        # lazy dimension: the checks run inside partial / partial2 of a real subclass; emulate their effect
+                        inst._attrs['dimension'] = dim
+                        inst._attrs['initialized'] = True
+                    res[meth] = it.call_fn(fn, [list(xs)], {}, self_obj=inst)
+            except Raised as r:
+                fn = cr.find('hessian') or init
+                run.oblige('D2', (label, 'raises'), False)
+                run.add(Finding('C14', 'D2', f'{modname}::Function.{getattr(r.fn, "name", "?")}', 'base-class assembly', f'{label}: raises {r}', fn.file, fn.node.lineno))
+                continue
+            except Fork:
+                raise AnalysisError(f'{label}: a guard is not decided')
+            for meth, val in res.items():
+                fn = cr.find(meth)
+                val = val.tolist() if isinstance(val, SymArray) else val
+                bad = []
+                if meth == 'gradient':
+                    if not (isinstance(val, list) and len(val) == dim):
+                        bad.append(f'gradient has length {len(val) if isinstance(val, list) else "?"} for dimension {dim}')
+                    else:
+                        bad += [f'gradient[{i}] = {val[i]} instead of partial(t, {i})' for i in range(dim) if sp.simplify(sp.sympify(val[i]) - sp.Symbol(f'p{i}')) != 0]
+                else:
+                    if not (isinstance(val, list) and len(val) == dim and all(isinstance(r_, list) and len(r_) == dim for r_ in val)):
+                        bad.append(f'hessian is not a {dim} x {dim} array')
+                    else:
+                        bad += [f'hessian[{i}][{j}] = {val[i][j]} instead of partial2(t, {i}, {j})' for i in range(dim) for j in range(dim)
+                                if sp.simplify(sp.sympify(val[i][j]) - sp.Symbol(f'h{min(i, j)}{max(i, j)}')) != 0]
+                run.oblige('D2', (label, meth), not bad)
+                if bad:
+                    run.add(Finding('C14', 'D2', f'{modname}::Function.{meth}', f'Function.{meth} (base class)', f'{label}: ' + '; '.join(bad[:3]), fn.file, fn.node.lineno))
 
 
 class SkipSymbolic(Exception):
